@@ -4,7 +4,7 @@ type-hinting and to keep the code more expressive & readable.
 """
 
 import sys
-from dataclasses import dataclass
+from dataclasses import dataclass, field, replace
 from textwrap import indent
 from typing import Any, Type, TypeVar, Union, cast
 
@@ -230,6 +230,10 @@ class Message:
     security_parameters: bytes
     #: The "old-style" PDU (either plain or encrypted)
     scoped_pdu: Union[OctetString, ScopedPDU]
+    #: The bytes this message was decoded from (empty for messages which were
+    #: not received from the network). Needed to verify the authenticity of
+    #: the message exactly as it was received.
+    raw: bytes = field(default=b"", compare=False, repr=False)
 
     def __bytes__(self) -> bytes:
         spdu: X690Type[Any]
@@ -316,7 +320,7 @@ class Message:
             if isinstance(message[3], OctetString)
             else PlainMessage
         )
-        return cls.from_sequence(message)  # type: ignore
+        return replace(cls.from_sequence(message), raw=data)  # type: ignore
 
     def pretty(self, depth: int = 0) -> str:
         """
